@@ -227,6 +227,11 @@ ssize_t Kernel::sys_read(int fd, void *buf, size_t n) {
     }
     case O_PIPE_W: return fail(EBADF);
     case O_PIPE_R: case O_SOCK: {
+      if (of->kind == O_SOCK) {
+        if (of->sock_state == 1 && clock >= of->sock_ready_at) of->sock_state = of->sock_err ? 3 : 2;
+        if (of->sock_state == 3) return fail(of->sock_err ? of->sock_err : ECONNREFUSED);
+        if (of->sock_state != 2 || !of->pipe) return fail(ENOTCONN);
+      }
       Pipe *pp = of->pipe;
       for (;;) {
         if (pp->reset) return fail(ECONNRESET);
@@ -295,6 +300,11 @@ ssize_t Kernel::sys_write(int fd, const void *buf, size_t n) {
       e.off = (int64_t)off; e.ret = (int64_t)k; emit(e); return (ssize_t)k;
     }
     case O_PIPE_W: case O_SOCK: {
+      if (of->kind == O_SOCK) {
+        if (of->sock_state == 1 && clock >= of->sock_ready_at) of->sock_state = of->sock_err ? 3 : 2;
+        if (of->sock_state == 3) return fail(of->sock_err ? of->sock_err : ECONNREFUSED);
+        if (of->sock_state != 2) return fail(ENOTCONN);
+      }
       Pipe *pp = of->kind == O_SOCK ? of->tx : of->pipe;
       if (!pp) return fail(ENOTCONN);
       size_t done = 0;
